@@ -38,6 +38,8 @@ mod readers;
 #[cfg(feature = "rv")]
 mod c10raw;
 mod anynum;
+mod keys;
+mod c14num;
 
 fn main() {
     let args: Vec<String> = std::env::args().collect();
@@ -56,8 +58,15 @@ fn main() {
             // the raw_value configuration of C14 runs the RawValue / UTF-8 clause only (the rest does not depend on the feature)
             #[cfg(feature = "rv")]
             c19::run_c14(&mut sink, thorough, seed);
+            // the float_roundtrip-only configuration of C14 runs the NUMBER-shape families only (that is what the feature changes)
             #[cfg(not(feature = "rv"))]
-            { c01::run(&mut sink, prop, thorough, seed); typed::run_tdepth(&mut sink, thorough, seed); streamraw::run_c14(&mut sink, thorough, seed); }
+            if c14_fr_only() {
+                let mut r = common::Rng::new(seed); let cfg = obs::cfg_tag();
+                c01::long_seq(&mut sink, &cfg, &mut r, thorough); c01::exp_edge(&mut sink, &cfg, &mut r, thorough);
+            } else { c01::run(&mut sink, prop, thorough, seed); typed::run_tdepth(&mut sink, thorough, seed); streamraw::run_c14(&mut sink, thorough, seed); }
+            // long-number shapes around the 64-bit significand overflow (not in the rv / ud configurations: the number code does not depend on them)
+            #[cfg(not(any(feature = "rv", feature = "ud")))]
+            c14num::run(&mut sink, thorough, seed);
         }
         "C09" => { c01::run(&mut sink, prop, thorough, seed); typed::run_tt3(&mut sink, thorough, seed); streamraw::run_c09(&mut sink, thorough, seed); }
         "C20" => {
@@ -121,7 +130,7 @@ fn main() {
     // streams of typed item types (docs/STREAMTYPED-NOTES.md): one line per property
     if prop == "C12" { stypes::run_c12(&mut sink, thorough, seed); }
     if prop == "C12" { stypes::run_depth(&mut sink, thorough, seed); }
-    if prop == "C14" && !cfg!(feature = "rv") { stypes::run_depth(&mut sink, thorough, seed); }
+    if prop == "C14" && !cfg!(feature = "rv") && !c14_fr_only() { stypes::run_depth(&mut sink, thorough, seed); }
     if prop == "C09" { stypes::run_c09(&mut sink, thorough, seed); }
     if prop == "C13" { stypes::run_c13(&mut sink, thorough, seed); }
     if prop == "C10" && !cfg!(feature = "rv") { stypes::run_c10(&mut sink, thorough, seed); }
@@ -129,8 +138,14 @@ fn main() {
     if prop == "C09" { readers::run(&mut sink, thorough, seed); }
     if prop == "C05" { readers::run(&mut sink, thorough, seed); }
     if prop == "C05" { c05::run_bytesctl(&mut sink, thorough, seed); }
+    // object-key position: escaping of char / String keys (C05), integers of every width as keys and values (C06)
+    if prop == "C05" { keys::run_esck(&mut sink, thorough, seed); }
+    if prop == "C06" { keys::run_ikey(&mut sink, thorough, seed); }
     sink.finish(stats);
 }
+
+/// float_roundtrip and nothing else
+fn c14_fr_only() -> bool { cfg!(feature = "fr") && !cfg!(any(feature = "ud", feature = "ap", feature = "rv", feature = "po")) }
 
 /// re-run one recorded case on the implementation
 fn replay(sink: &mut common::Sink, toks: &[&str]) {
@@ -179,6 +194,7 @@ fn replay(sink: &mut common::Sink, toks: &[&str]) {
         "rd" | "rs" => readers::replay(sink, toks),
         "rsa" => readers::replay(sink, toks),
         "anynum" => anynum::replay(sink, toks),
+        "esck" | "ikey" | "rsk" => keys::replay(sink, toks),
         _ => eprintln!("cannot replay op {}", toks[0]),
     }
 }
